@@ -7,6 +7,11 @@
 #ifndef SPEC_INT_H
 #define SPEC_INT_H
 #include <stdint.h>
+#ifndef AVM_MUL_u64
+#define AVM_MUL_u32(a, b) ((uint32_t)(a) * (uint32_t)(b))
+#define AVM_MUL_u64(a, b) ((uint64_t)(a) * (uint64_t)(b))
+#define AVM_MUL_u128(a, b) ((unsigned __int128)(a) * (unsigned __int128)(b))
+#endif
 
 static inline uint64_t spec_mask(unsigned bits) { return bits >= 64 ? ~(uint64_t)0 : (((uint64_t)1 << bits) - 1); }
 /* sign-extend the low `bits` bits */
@@ -231,4 +236,38 @@ static inline int spec_div_ok(uint64_t r, uint64_t n, uint64_t d, unsigned bits,
   }
 }
 #endif
+
+/* ---- C14: Granlund-Montgomery division by an invariant unsigned integer (PLDI'94, Fig. 4.1), N = 32 / 64.
+ * For 1 <= d < 2^N, l = ceil(log2 d), m' = floor(2^N (2^l - d) / d) + 1, sh1 = min(l, 1), sh2 = max(l - 1, 0):
+ *      t1 = MULUH(m', n);   q = SRL(t1 + SRL(n - t1, sh1), sh2)      and      q == floor(n / d)   for all 0 <= n < 2^N.
+ * The identity is lemma L3 (gm_unsigned + magic_fits + the carry-free evaluation), proved for every N in
+ * /verif/lemmas/AvelLemmas.lean; CBMC proves that the constructor stores exactly (m', l - 1, d) and that div evaluates
+ * exactly this expression (code-level contract): together "modulo-lemma L3".  AVEL special-cases d == 1 (l == 0). */
+static inline unsigned spec_ceil_log2(uint64_t d, unsigned bits) {          /* bits - countl_zero(d - 1) */
+  uint64_t x = (d - 1) & spec_mask(bits);
+  unsigned w = 0;
+  for (unsigned i = 0; i < bits; i++) if ((x >> i) & 1) w = i + 1;
+  return w;
+}
+#if !defined(AVM_NATIVE) && defined(AVM_DIV_UF)
+static inline uint32_t spec_gm_magic_u32(uint32_t d, unsigned l) {
+  return (uint32_t)(__CPROVER_uninterpreted_div_u64(((((uint64_t)1) << l) - (uint64_t)d) << 32, (uint64_t)d) + 1);
+}
+#else
+static inline uint32_t spec_gm_magic_u32(uint32_t d, unsigned l) {
+  return (uint32_t)((((((uint64_t)1) << l) - (uint64_t)d) << 32) / (uint64_t)d + 1);
+}
+#endif
+static inline int spec_gm_div_u32_ok(uint32_t q, uint32_t r, uint32_t n, uint32_t m, uint32_t sh2, uint32_t d) {
+  if (d == 1) return q == n && r == 0;
+  uint32_t t1 = (uint32_t)(AVM_MUL_u64((uint64_t)m, (uint64_t)n) >> 32);
+  uint32_t qq = (t1 + ((n - t1) >> 1)) >> sh2;
+  return q == qq && r == (uint32_t)(n - AVM_MUL_u32(qq, d));
+}
+static inline int spec_gm_div_u64_ok(uint64_t q, uint64_t r, uint64_t n, uint64_t m, uint64_t sh2, uint64_t d) {
+  if (d == 1) return q == n && r == 0;
+  uint64_t t1 = (uint64_t)(AVM_MUL_u128((unsigned __int128)m, (unsigned __int128)n) >> 64);
+  uint64_t qq = (t1 + ((n - t1) >> 1)) >> sh2;
+  return q == qq && r == n - AVM_MUL_u64(qq, d);
+}
 #endif
